@@ -3531,6 +3531,28 @@ class StateEngine(object):
         failure and if so prevent the terminated branch from progressing further.
         """
         timeout = ASL.get("TimeoutSeconds", self.execution_ttl)
+
+        """
+        An event of a Parallel Branch or Map Iterator may be delivered (for
+        the first time, so not as a redelivery following a restart) after its
+        execution has ended and after the branch metadata that was retained
+        to recognise such late events has been discarded by the timeout back
+        stop. The execution record still says that the execution is over, so
+        the event is dropped rather than left to end the execution again.
+        """
+        if (not redelivered and "Branch" in context["State"] and
+            state_machine_type == "STANDARD" and
+            execution_arn not in self.branch_metadata):
+            execution_detail = self.executions.get(execution_arn)
+            if execution_detail and execution_detail.get("status") != "RUNNING":
+                self.logger.info(
+                    "Dropping late event for state \"{}\" of {}, which has already ended".format(
+                        current_state, execution_arn
+                    )
+                )
+                self.event_dispatcher.acknowledge(id)
+                return
+
         if self.branch_has_terminated(state_type, context, id, timeout):
             return
 
